@@ -61,18 +61,18 @@ theorem sample_sound {H : HashFn} (hk : HashOK H) {e : Eds} {k : Nat} (hw : e.wi
             · cases hv
             · rename_i hst
               have hst' : s.proof.start = col := by simpa using hst
-              cases hvr : verifyRange H s.proof rr [s.share.data] s.share.ns with
+              cases hvr : luminaVerifyRange H s.proof rr [s.share.data] s.share.ns with
               | error er => simp [hvr] at hv
-              | ok u' => exact axis_leaf_bound hk hw hsz hrr1 hcol hss hsib hvr hst'
+              | ok u' => exact axis_leaf_bound hk hw hsz hrr1 hcol hss hsib (luminaVerifyRange_ok hvr) hst'
           | col =>
             simp only [hp] at hv
             split at hv
             · cases hv
             · rename_i hst
               have hst' : s.proof.start = row := by simpa using hst
-              cases hvr : verifyRange H s.proof cr [s.share.data] s.share.ns with
+              cases hvr : luminaVerifyRange H s.proof cr [s.share.data] s.share.ns with
               | error er => simp [hvr] at hv
-              | ok u' => exact axis_leaf_bound hk hw hsz hcr1 hrow hss hsib hvr hst'
+              | ok u' => exact axis_leaf_bound hk hw hsz hcr1 hrow hss hsib (luminaVerifyRange_ok hvr) hst'
         obtain ⟨sh, hsh, hdata⟩ := key
         unfold Eds.share? at hsh
         simp only [accepted, specVerify, shareAt, hrow, hcol, and_self, ↓reduceIte, rawSquare, Bool.not_true,
